@@ -327,3 +327,222 @@ pub fn replay(v: &Value) -> i32 {
         }
     }
 }
+
+// ------------------------------------------------------------------------------------------ C06
+
+/// (name, type, initialiser, expected pattern)
+fn value_table() -> Vec<(&'static str, &'static str, &'static str, Value)> {
+    let sc = |t: &str, v: &str| json!({"k":"scalar","t":t,"v":v});
+    let mut t: Vec<(&'static str, &'static str, &'static str, Value)> = vec![
+        ("i8_min", "i8", "-128", sc("i8", "-128")),
+        ("i8_max", "i8", "127", sc("i8", "127")),
+        ("u8_max", "u8", "255", sc("u8", "255")),
+        ("i16_min", "i16", "-32768", sc("i16", "-32768")),
+        ("u16_max", "u16", "65535", sc("u16", "65535")),
+        ("i32_min", "i32", "-2147483648", sc("i32", "-2147483648")),
+        ("u32_max", "u32", "4294967295", sc("u32", "4294967295")),
+        ("i64_min", "i64", "-9223372036854775808", sc("i64", "-9223372036854775808")),
+        ("i64_max", "i64", "9223372036854775807", sc("i64", "9223372036854775807")),
+        ("u64_max", "u64", "18446744073709551615", sc("u64", "18446744073709551615")),
+        ("i128_min", "i128", "-170141183460469231731687303715884105728", sc("i128", "-170141183460469231731687303715884105728")),
+        ("u128_max", "u128", "340282366920938463463374607431768211455", sc("u128", "340282366920938463463374607431768211455")),
+        ("isize_m1", "isize", "-1", sc("isize", "-1")),
+        ("usize_max", "usize", "18446744073709551615", sc("usize", "18446744073709551615")),
+        ("f32_v", "f32", "1.5", sc("f32", "1.5")),
+        ("f64_v", "f64", "-2.25", sc("f64", "-2.25")),
+        ("b_t", "bool", "true", json!({"k":"scalar","t":"bool","v":true})),
+        ("b_f", "bool", "false", json!({"k":"scalar","t":"bool","v":false})),
+        ("ch_a", "char", "'a'", sc("char", "a")),
+        ("ch_u", "char", "'\\u{df}'", sc("char", "\u{df}")),
+        ("ch_e", "char", "'\\u{1F600}'", sc("char", "\u{1F600}")),
+        ("tup", "(u8, i64)", "(7, -9)", json!({"k":"struct","fields":[["__0",sc("u8","7")],["__1",sc("i64","-9")]]})),
+        ("tup_n", "((u8, u16), u32)", "((1, 2), 3)", json!({"k":"struct","fields":[["__0",{"k":"struct","fields":[["__0",sc("u8","1")],["__1",sc("u16","2")]]}],["__1",sc("u32","3")]]})),
+        ("st", "Pt", "Pt { a: 5, b: true }", json!({"k":"struct","t":"Pt","fields":[["a",sc("i32","5")],["b",{"k":"scalar","t":"bool","v":true}]]})),
+        ("st_n", "Outer", "Outer { p: Pt { a: -1, b: false }, q: 9 }", json!({"k":"struct","t":"Outer","fields":[["p",{"k":"struct","t":"Pt","fields":[["a",sc("i32","-1")],["b",{"k":"scalar","t":"bool","v":false}]]}],["q",sc("u8","9")]]})),
+        ("ce_a", "Color", "Color::Red", json!({"k":"cenum","v":"Red"})),
+        ("ce_c", "Color", "Color::Blue", json!({"k":"cenum","v":"Blue"})),
+        ("de_a", "Shape", "Shape::Circle(5)", json!({"k":"enum","variant":"Circle","value":{"k":"struct","fields":[["__0",sc("u32","5")]]}})),
+        ("de_b", "Shape", "Shape::Rect { w: 2, h: 3 }", json!({"k":"enum","variant":"Rect","value":{"k":"struct","fields":[["w",sc("u16","2")],["h",sc("u16","3")]]}})),
+        ("de_c", "Shape", "Shape::Empty", json!({"k":"enum","variant":"Empty"})),
+        ("opt_u8_s", "Option<u8>", "Some(0)", json!({"k":"enum","variant":"Some","value":{"k":"struct","fields":[["__0",sc("u8","0")]]}})),
+        ("opt_u8_n", "Option<u8>", "None", json!({"k":"enum","variant":"None"})),
+        ("opt_nz_s", "Option<core::num::NonZeroU32>", "core::num::NonZeroU32::new(7)", json!({"k":"enum","variant":"Some"})),
+        ("opt_nz_n", "Option<core::num::NonZeroU32>", "None", json!({"k":"enum","variant":"None"})),
+        ("opt_ref_s", "Option<&u64>", "Some(&G64)", json!({"k":"enum","variant":"Some"})),
+        ("opt_ref_n", "Option<&u64>", "None", json!({"k":"enum","variant":"None"})),
+        ("arr", "[u16; 3]", "[1, 2, 3]", json!({"k":"array","items":[sc("u16","1"),sc("u16","2"),sc("u16","3")]})),
+        ("arr2", "[[u8; 2]; 2]", "[[1, 2], [3, 4]]", json!({"k":"array","items":[{"k":"array","items":[sc("u8","1"),sc("u8","2")]},{"k":"array","items":[sc("u8","3"),sc("u8","4")]}]})),
+        ("arr_e", "[u32; 0]", "[]", json!({"k":"array","items":[]})),
+        ("s_hello", "&str", "\"h\\u{e9}llo\"", json!({"k":"str","v":"h\u{e9}llo"})),
+        ("s_empty", "&str", "\"\"", json!({"k":"str","v":""})),
+        ("r64", "&u64", "&G64", json!({"k":"pointer","nonnull":true,"deref":sc("u64","77")})),
+        ("p64", "*const u64", "&raw const G64", json!({"k":"pointer","nonnull":true,"deref":sc("u64","77")})),
+        ("pnull", "*const u8", "core::ptr::null()", json!({"k":"pointer","nonnull":false})),
+    ];
+    t.push(("unit_v", "()", "()", json!({"k":"scalar","t":"()","v":"()"})));
+    t
+}
+
+fn matches(pat: &Value, got: &Value, path: &str, out: &mut Vec<String>) {
+    if pat["k"] != got["k"] {
+        out.push(format!("{path}: shown as {} , expected kind {}", got, pat["k"]));
+        return;
+    }
+    match pat["k"].as_str().unwrap_or("") {
+        "scalar" => {
+            if pat["v"] != got["v"] {
+                out.push(format!("{path}: value {} expected {}", got["v"], pat["v"]));
+            }
+            if pat.get("t").is_some() && pat["t"] != got["t"] {
+                out.push(format!("{path}: type name {} expected {}", got["t"], pat["t"]));
+            }
+        }
+        "struct" => {
+            if let Some(t) = pat.get("t") {
+                if got["t"] != *t {
+                    out.push(format!("{path}: type name {} expected {t}", got["t"]));
+                }
+            }
+            let pf = pat["fields"].as_array().cloned().unwrap_or_default();
+            let gf = got["fields"].as_array().cloned().unwrap_or_default();
+            if pf.len() != gf.len() {
+                out.push(format!("{path}: {} fields shown, {} expected: {}", gf.len(), pf.len(), got));
+                return;
+            }
+            for (p, g) in pf.iter().zip(gf.iter()) {
+                if p[0] != g[0] {
+                    out.push(format!("{path}: field {} expected {}", g[0], p[0]));
+                }
+                matches(&p[1], &g[1], &format!("{path}.{}", p[0].as_str().unwrap_or("?")), out);
+            }
+        }
+        "array" => {
+            let pi = pat["items"].as_array().cloned().unwrap_or_default();
+            let gi = got["items"].as_array().cloned().unwrap_or_default();
+            if pi.len() != gi.len() {
+                out.push(format!("{path}: {} elements shown, {} expected", gi.len(), pi.len()));
+                return;
+            }
+            for (i, (p, g)) in pi.iter().zip(gi.iter()).enumerate() {
+                matches(p, g, &format!("{path}[{i}]"), out);
+            }
+        }
+        "cenum" | "str" => {
+            if pat["v"] != got["v"] {
+                out.push(format!("{path}: {} expected {}", got["v"], pat["v"]));
+            }
+        }
+        "enum" => {
+            if pat["variant"] != got["variant"] {
+                out.push(format!("{path}: variant {} expected {}", got["variant"], pat["variant"]));
+            } else if pat.get("value").is_some() {
+                matches(&pat["value"], &got["value"], &format!("{path}::{}", pat["variant"].as_str().unwrap_or("?")), out);
+            }
+        }
+        "pointer" => {
+            let nn = got["addr"].as_u64().map(|a| a != 0).unwrap_or(false);
+            if pat["nonnull"].as_bool() != Some(nn) {
+                out.push(format!("{path}: pointer {} expected non-null={}", got["addr"], pat["nonnull"]));
+            }
+        }
+        _ => {}
+    }
+}
+
+pub fn part_c06_core(tier: Tier) -> Part {
+    let mut part = Part::new("core-type-values");
+    let table = value_table();
+    let mut f = String::new();
+    f.push_str("#[derive(Clone, Copy)]\npub struct Pt {\n    a: i32,\n    b: bool,\n}\n#[derive(Clone, Copy)]\npub struct Outer {\n    p: Pt,\n    q: u8,\n}\n#[derive(Clone, Copy)]\npub enum Color {\n    Red,\n    Green,\n    Blue,\n}\n#[derive(Clone, Copy)]\npub enum Shape {\n    Circle(u32),\n    Rect { w: u16, h: u16 },\n    Empty,\n}\npub static G64: u64 = 77;\n#[inline(never)]\nfn vals(seed: u64) -> u64 {\n");
+    for (n, ty, init, _) in &table {
+        f.push_str(&format!("    let {n}: {ty} = core::hint::black_box({init});\n"));
+    }
+    f.push_str("    let mut acc = seed;\n");
+    let stop_off = f.matches('\n').count() as u32 + 1;
+    f.push_str("    acc = acc.wrapping_add(1);\n");
+    for (n, _, _, _) in &table {
+        f.push_str(&format!("    core::hint::black_box(&{n});\n"));
+    }
+    f.push_str("    acc\n}\n");
+    let cfgs = match tier {
+        Tier::Quick => vec![Config::default_cfg()],
+        Tier::Thorough => vec![Config::default_cfg(), Config { toolchain: "stable".into(), opt: 0, dwarf: 5, pie: true }, Config { toolchain: "stable".into(), opt: 0, dwarf: 4, pie: true }],
+    };
+    part.bounds = json!({"variables": table.len(), "configurations": cfgs.iter().map(|c| c.tag()).collect::<Vec<_>>()});
+    part.rule = "a generated function holds one local of every core (no_std) type form with boundary values: all integer widths and signs at min/max, floats, bools, chars (ASCII, 2-byte, 4-byte), unit, tuples, nested structs, C-like and data-carrying enums (tuple, struct and unit variants), Option<u8> / Option<NonZeroU32> / Option<&T> (niche encodings) in both variants, arrays (nested, empty), &str (non-ASCII, empty), references and raw pointers (non-null with dereference, null); every value the debugger shows (read_local_variables, converted to canonical JSON) must equal the table the program was generated from, scalar and user type names included".into();
+    for cfg in &cfgs {
+        let name = "p_values";
+        let mut prog = corpus::generate_custom(name, &f, "    a = a.wrapping_add(vals(a));");
+        let first = prog.lines.iter().find(|(_, m)| m == "custom.start").map(|(l, _)| *l).unwrap_or(1);
+        prog.lines.retain(|(_, m)| m != "custom.start");
+        let res = corpus::build(&prog, cfg).and_then(|b| prepare(vec![b]));
+        let p = match res {
+            Ok(mut v) => v.remove(0),
+            Err(e) => {
+                part.violate("C06:machinery:corpus", e, json!({}));
+                part.exhaustive = false;
+                continue;
+            }
+        };
+        let mut job = init_json(&p, false);
+        job["commands"] = json!([
+            {"op":"break_line","file":p.built.program.src_file,"line":first + stop_off - 1},
+            {"op":"start"},
+            {"op":"values","names":[],"derefs":["r64","p64"],"frames":1},
+            {"op":"continue"}
+        ]);
+        let replay = json!({"engine":"c06","config":cfg.tag()});
+        match run_worker("e2e", &job, Duration::from_secs(120)) {
+            WorkerOutcome::Ok(v) => {
+                let fr = &v["obs"][2]["res"]["frames"][0];
+                let shown: Vec<Value> = fr["locals"]["Ok"].as_array().cloned().unwrap_or_default();
+                part.states += 1;
+                if shown.is_empty() {
+                    part.violate("C06:machinery:no-locals", format!("[{}] {}", p.name(), v["obs"][2]["res"]), replay.clone());
+                    continue;
+                }
+                for (n, ty, _, pat) in &table {
+                    part.evaluations += 1;
+                    part.distinct_nontrivial += 1;
+                    let Some(g) = shown.iter().find(|e| e["name"] == *n) else {
+                        part.violate(format!("C06:value:not-shown:{}", kind_of(ty)), format!("[{}] local `{n}: {ty}` is not listed", p.name()), replay.clone());
+                        continue;
+                    };
+                    let mut diffs = vec![];
+                    matches(pat, &g["v"], n, &mut diffs);
+                    if pat["k"] == "pointer" && pat.get("deref").is_some() {
+                        let d = &fr["deref"][*n]["Ok"][0]["v"];
+                        matches(&pat["deref"], d, &format!("*{n}"), &mut diffs);
+                    }
+                    for d in diffs {
+                        let what = if d.contains("type name") { "type-name" } else { "value" };
+                        part.violate(format!("C06:{what}:wrong:{}", kind_of(ty)), format!("[{}] `{n}: {ty}`: {d}", p.name()), replay.clone());
+                    }
+                }
+                part.sample(json!({"config": cfg.tag(), "locals_shown": shown.len(), "example": shown.iter().find(|e| e["name"] == "de_b")}));
+            }
+            o => part.violate("C06:debugger-crashed-or-hung", format!("[{}] {o:?}", p.name()), replay),
+        }
+    }
+    part.transitions = part.evaluations;
+    part.traces_validated = part.states;
+    part
+}
+
+fn kind_of(ty: &str) -> &'static str {
+    if ty.starts_with("Option") {
+        "option-niche"
+    } else if ty.starts_with('[') {
+        "array"
+    } else if ty.starts_with('(') && ty != "()" {
+        "tuple"
+    } else if ty.starts_with('&') || ty.starts_with('*') {
+        "pointer-or-str"
+    } else if ["Pt", "Outer"].contains(&ty) {
+        "struct"
+    } else if ["Color", "Shape"].contains(&ty) {
+        "enum"
+    } else {
+        "scalar"
+    }
+}
